@@ -54,6 +54,11 @@ func (s *grpcServer) Read(req *bytestream.ReadRequest,
 	}
 
 	if size == 0 {
+		if req.ReadOffset != 0 || req.ReadLimit < 0 {
+			return status.Error(codes.OutOfRange,
+				"invalid ReadOffset/ReadLimit for the empty blob")
+		}
+
 		if cmp == casblob.Identity {
 			s.accessLogger.Printf("GRPC BYTESTREAM READ COMPLETED %s", req.ResourceName)
 			return nil
